@@ -33,11 +33,24 @@ Fixpoint elems_ordered (L : list param) (lo : Z) (offs : list Z) (l : list tuple
   | _, _ => False
   end.
 
-(* [stride_ok]: an element of an all-fixed list fits into one stride (discharged for
-   the stride the library computes by the theorem esize_stride_ok) *)
+(* tight packing (C05): every element starts where align_for_first_parameter puts it after
+   the end of its predecessor (the first one after address [lo]), and the end of the data
+   is the end of the last element or the aligned address behind it (pop_back / erase leave
+   data_end at the start of the removed element) *)
+Fixpoint elems_tight (L : list param) (lo : Z) (offs : list Z) (l : list tuple) (hi : Z) : Prop :=
+  match offs, l with
+  | [], [] => hi = lo \/ hi = first_align L lo
+  | a :: offs', t :: l' => a = first_align L lo /\ elems_tight L (elem_end L a t) offs' l' hi
+  | _, _ => False
+  end.
+
+(* [stride_ok]: an element of an all-fixed list fits into one stride, and the stride is
+   exactly the distance to the next suitably aligned address (discharged for the stride the
+   library computes by the theorem esize_stride_ok) *)
 Definition stride_ok (L : list param) (fc : list Z) (stride : Z) : Prop :=
   0 <= stride /\ (SA L | stride) /\
-  forall t a, tuple_ok L fc 0 t -> 0 <= a -> (SA L | a) -> elem_end L a t <= a + stride.
+  forall t a, tuple_ok L fc 0 t -> 0 <= a -> (SA L | a) ->
+    elem_end L a t <= a + stride /\ first_align L (elem_end L a t) = a + stride.
 
 Record RepO (L : list param) (v : vec) (l : list tuple) (offs : list Z) : Prop := {
   r_tuples : Forall (tuple_ok L (fixed_counts L (v_fixed v)) 0) l;
@@ -53,7 +66,8 @@ Record RepO (L : list param) (v : vec) (l : list tuple) (offs : list Z) : Prop :
     else
       v_count v = Z.of_nat (length l) /\
       offs = map (fun i => v_stride v * Z.of_nat i) (seq 0 (length l)) /\
-      stride_ok L (fixed_counts L (v_fixed v)) (v_stride v)
+      stride_ok L (fixed_counts L (v_fixed v)) (v_stride v);
+  r_tight : elems_tight L 0 offs l (dend L v)
 }.
 
 Definition Rep (L : list param) (v : vec) (l : list tuple) : Prop := exists offs, RepO L v l offs.
